@@ -53,7 +53,8 @@ def run(chk):
     refl = get_reflection_schema().unwrap()
     cases, meta, fails = [], [], []
     for _ in range(n):
-        desc = gen_schema.gen_desc(chk.rng, "serde", max_fields=4, depth=2)
+        # enumerator values beyond i32 (known finding enum-value-i32) in about one schema in six only, so that most records are compared in full
+        desc = gen_schema.gen_desc(chk.rng, "serde", max_fields=4, depth=2, max_enum_bits=40 if chk.rng.random() < 0.25 else 30)
         gen_schema.add_units_ranges(chk.rng, desc)
         gen_schema.add_can_impls(chk.rng, desc)
         gen_schema.add_services(chk.rng, desc)
